@@ -1,6 +1,7 @@
 import Emerge.Emitted
 import Emerge.Proofs.Scanner
 import Emerge.Proofs.Reader
+import Emerge.Proofs.ReaderNext
 import Emerge.Proofs.Utf8
 import Emerge.Inst.ReaderTmpl
 import Emerge.Inst.LexerTmpl
@@ -26,8 +27,10 @@ import Emerge.Inst.LexerTmpl
   half" - the real lexer returned the tail of any token longer than 8 KiB). UTF-8: the bytes of any text of Unicode
   scalar values decode to that text (`C19_utf8`, `Utf8.decode` is the table-driven decoder of the
   emitted `Next`), a rune gives back 1 to 4 bytes, and a text without U+0000 has no NUL byte, so the
-  hypothesis of `C19_reader` is met. Not proved: that the emitted `Next` is `Utf8.decode` step by step
-  (same tables; exercised by running the compiled lexer on multi-byte texts).
+  hypothesis of `C19_reader` is met. The emitted `Next` (model `Reader.nextRune`: 1 to 4 calls of
+  `next`, first-byte classes and second-byte ranges as the template's tables give them) returns, in
+  every reachable state of the reader, the scalar value whose encoding lies at the cursor and moves
+  the cursor behind it (`C19_next_rune`) - also when the bytes of the rune straddle a reload.
 -/
 namespace Emerge.Props.C19
 open Emerge Emerge.Scanner Emerge.Emitted
@@ -204,16 +207,31 @@ example : Utf8.decode 3 (Utf8.encode [0x61, 0x20AC, 0x1F600]) = ([0x61, 0x20AC, 
 
 /-! ### the tie of the reader model to the template (regenerated from input.go.tmpl on every run) -/
 
+open Emerge.Reader in
+/-- **`Next` returns the rune at the cursor**, in every reachable state of the reader (any half size, any alignment,
+    re-reading given-back bytes or loading a half in the middle of the sequence): if the UTF-8 encoding of the scalar
+    value `r` lies in the source at the cursor, the result is `r` with the length of that encoding (what `Retract` will
+    give back), and the reader is at the cursor behind it. -/
+theorem C19_next_rune {src : Nat → Nat} {len n : Nat} (hnf : NulFree src len) {s : RState} {a : AState} {g : Ghost}
+    (h : Inv2 src len n s a g) (r : Nat) (hr : Utf8.Scalar r)
+    (hfit : a.k + (Utf8.encodeRune r).length ≤ len)
+    (hat : ∀ i, i < (Utf8.encodeRune r).length → src (a.k + i) = (Utf8.encodeRune r).getD i 0) :
+    ∃ g', (nextRune src len n s).1 = .rune r (Utf8.encodeRune r).length ∧
+      Inv2 src len n (nextRune src len n s).2
+        ⟨a.k + (Utf8.encodeRune r).length, a.p - (Utf8.encodeRune r).length, a.kb⟩ g' :=
+  nextRune_refines hnf h r hr hfit hat
+
 /-- The byte-level methods of the emitted reader read, statement for statement, as the ones `Emerge.Reader` models;
     its sentinel is NUL; its UTF-8 tables classify every first byte as `Utf8.decode` does. -/
 theorem C19_reader_template :
     Gen.ReaderTmpl.body_load = Ref.ReaderTmpl.body_load ∧ Gen.ReaderTmpl.body_loadFirst = Ref.ReaderTmpl.body_loadFirst ∧
     Gen.ReaderTmpl.body_loadSecond = Ref.ReaderTmpl.body_loadSecond ∧ Gen.ReaderTmpl.body_next = Ref.ReaderTmpl.body_next ∧
+    Gen.ReaderTmpl.body_Next = Ref.ReaderTmpl.body_Next ∧
     Gen.ReaderTmpl.body_Retract = Ref.ReaderTmpl.body_Retract ∧ Gen.ReaderTmpl.body_Lexeme = Ref.ReaderTmpl.body_Lexeme ∧
     Gen.ReaderTmpl.body_Skip = Ref.ReaderTmpl.body_Skip ∧ Gen.ReaderTmpl.eof = 0 ∧
     (∀ b0 : Nat, b0 < 256 → Inst.ReaderTmpl.tableClass b0 = Inst.ReaderTmpl.rangeClass b0) :=
   ⟨Inst.ReaderTmpl.body_load_eq, Inst.ReaderTmpl.body_loadFirst_eq, Inst.ReaderTmpl.body_loadSecond_eq,
-   Inst.ReaderTmpl.body_next_eq, Inst.ReaderTmpl.body_Retract_eq, Inst.ReaderTmpl.body_Lexeme_eq,
+   Inst.ReaderTmpl.body_next_eq, Inst.ReaderTmpl.body_Next_eq, Inst.ReaderTmpl.body_Retract_eq, Inst.ReaderTmpl.body_Lexeme_eq,
    Inst.ReaderTmpl.body_Skip_eq, Inst.ReaderTmpl.sentinel_is_nul, Inst.ReaderTmpl.class_eq⟩
 
 /-- The emitted lexer's `New`, `NextToken`, `evalToken`, its constants and the two table templates read, statement for
